@@ -18,7 +18,8 @@ RULE = ("cases = (call id, does send fail?, list of poll events: reply frame | t
         "sync client, list of multipart deliveries for the async client; frames: own id, stale id (earlier call), foreign "
         "string ids (prefix, upper-cased, empty), non-string ids (number, null, list, missing), duplicates of the own "
         "reply, valid JSON that is not an object, invalid JSON / invalid UTF-8; systematic block of all short event "
-        "lists over a 7-letter alphabet, random block from VERIF_SEED; non-trivial = at least one frame was discarded "
+        "lists over a 7-letter alphabet, random block from VERIF_SEED; one case in four hands call() a re-used message "
+        "dict that still carries an earlier id; non-trivial = at least one frame was discarded "
         "or an error path was taken; distinct by content hash")
 ASSUMPTIONS = [
     "json.loads is a parameter: the harness classifies every frame with json.loads (invalid / non-object / object with "
@@ -34,6 +35,15 @@ ASSUMPTIONS = [
 CALL = "c0ffee00c0ffee00c0ffee00c0ffee00"
 STALE = "0123456789abcdef0123456789abcdef"
 ZMQ_MSG = "verif-scripted-zmq-error"
+
+
+def _message(case):
+    """the dict handed to call(): a re-used message dict still carries the id an earlier call wrote into it
+    (call() writes the id into the caller's dict) — the new call must not take it over"""
+    msg = {"command": "list", "properties": {}}
+    if "preset" in case:
+        msg["id"] = case["preset"]
+    return msg
 
 
 class _Pending(Exception):
@@ -83,6 +93,13 @@ def generate(rng, tier):
                 cases.append(_async([[], list(combo[:1]), [], list(combo[1:])]))
     cases.append(_sync([_m(OWN)], send_fails=True))
     cases.append(_sync([], send_fails=True))
+    # a re-used message dict: the id of an earlier call (or anything else) is already in it
+    for preset in (STALE, "", 5, None):
+        cases.append(dict(_sync([_m(_obj(STALE)), _m(OWN)]), preset=preset))
+        cases.append(dict(_sync([_m(OWN), _m(_obj(STALE))]), preset=preset))
+        cases.append(dict(_sync([_m(_obj(STALE)), ["t"]]), preset=preset))
+        cases.append(dict(_async([[_obj(STALE), OWN]]), preset=preset))
+        cases.append(dict(_async([[OWN], [_obj(STALE)]]), preset=preset))
     for f in FOREIGN + NONOBJ + INVALID:
         cases.append(_sync([_m(f), _m(OWN)]))
         cases.append(_sync([_m(f), ["t"]]))
@@ -107,6 +124,8 @@ def generate(rng, tier):
             cases.append(_sync(evs, send_fails=rng.random() < 0.03))
         else:
             cases.append(_async([[rframe() for _ in range(rng.randint(0, 3))] for _ in range(rng.randint(0, 5))]))
+        if rng.random() < 0.25:
+            cases[-1]["preset"] = rng.choice([STALE, STALE, "", 5, None, "CALL-prefix"])
     return cases
 
 
@@ -264,7 +283,7 @@ def _run_sync(case):
     cl.uuid = _FakeUuid(case["call_id"])
     try:
         with contextlib.redirect_stdout(io.StringIO()):
-            obs = _result(lambda: c.call({"command": "list", "properties": {}}), case["call_id"])
+            obs = _result(lambda: c.call(_message(case)), case["call_id"])
     finally:
         cl.uuid = saved
     sent_ok = len(log["sent"]) == 1 and json.loads(log["sent"][0]).get("id") == case["call_id"]
@@ -312,7 +331,7 @@ def _run_async(case):
     cl.uuid = _FakeUuid(case["call_id"])
 
     async def runner():
-        return await c.call({"command": "list", "properties": {}})
+        return await c.call(_message(case))
     try:
         obs = _result(lambda: _loop.run_until_complete(runner()), case["call_id"])
     finally:
